@@ -1704,7 +1704,7 @@ func init() {
 					timed := []int{0, 1, 2, 3, 5, 41, 42, 43, 60, 169, 255}
 					imm := []int{0, 1, 3, 245, 254, 255}
 					if r.Thorough() {
-						timed, imm = seq(0, 70), seq(0, 255)
+						timed, imm = append(seq(0, 70), 169, 255), seq(0, 255)
 					}
 					for _, n := range timed {
 						emit(c08LongCase{Kind: "components-timed", From: n})
